@@ -20,6 +20,7 @@ import OFV.Proofs.C09Bct4
 import OFV.Proofs.C09Enc
 import OFV.Proofs.C09Sum
 import OFV.Proofs.C09JwEq
+import OFV.Proofs.C09BkEq
 
 namespace OFV.C09
 open OFV.Model.C09 OFV.Spec.C09
@@ -480,6 +481,28 @@ theorem bct_checksum_matrix (n : Nat) (odd : Bool) (c : Code) (hc : checksumCode
     (hw : bitsOf wq = encFn c (occList s n)) (hx : bitsOf xq = encFn c (occList out n)) :
     Sem.den .qubit R [wq] [xq] = Spec.melF h out s :=
   bct_checksum_matrix' n odd c hc h R hwf hR s out wq xq hs ho hps hpo hpres hw hx
+
+/-- the rows of `_encoder_bk`'s doubled matrix are the Fenwick intervals of the C05 Spec: entry `(k, c)` is 1
+exactly for `k + 1 - lowbit(k + 1) ≤ c ≤ k` (`loM k`, every doubling level `r`, `k < 2^(r+1)`) -/
+theorem bk_encoder_rows (r k c : Nat) (hk : k < 2 ^ (r + 1)) :
+    ((encIter r).getD k []).getD c 0 = if OFV.BK.loM k ≤ c ∧ c ≤ k then 1 else 0 :=
+  encIter_entry r k c hk
+
+/-- `bravyi_kitaev_code(n)` encodes a Fock state as the C05 Spec encoding `enc .bk n` does (every `n`, also when `n`
+is not a power of two) -/
+theorem bk_code_encoding_is_spec (n : Nat) (c : Code) (hc : bravyiKitaevCode n = .ok c) (s : Nat) (hs : s < 2 ^ n) :
+    bitsOf (Spec.C05.enc .bk n s) = encFn c (occList s n) :=
+  bk_encoding_is_spec n c hc s hs
+
+/-- **bct_bk_eq_bk** (as operators): `binary_code_transform(h, bravyi_kitaev_code(n))` and `bravyi_kitaev(h, n)`
+(the C05 Model) have the same matrix elements between all encoded Fock states, for every `n` and every
+FermionOperator on modes `< n` (tolerance-free Models). -/
+theorem bct_bk_eq_bk (n : Nat) (c : Code) (hc : bravyiKitaevCode n = .ok c) (h R : Model.Op)
+    (hwf : ∀ tc ∈ h, ∀ f ∈ tc.1, f.2 ≤ 1 ∧ f.1 < n) (hR : binaryCodeTransform 0 h c = .ok R)
+    (s out : Nat) (hs : s < 2 ^ n) (ho : out < 2 ^ n) :
+    Sem.den .qubit R [Spec.C05.enc .bk n s] [Spec.C05.enc .bk n out] =
+      Sem.den .qubit (Model.C05.bkFermion 0 n h) [Spec.C05.enc .bk n s] [Spec.C05.enc .bk n out] :=
+  bct_bk_eq_bk' n c hc h R hwf hR s out hs ho
 
 /-! ## the literal segment codes (tables re-extracted from the source on every run) -/
 
